@@ -91,6 +91,21 @@ func init() {
 			}
 		}
 	}
+	// the negative-zero twin of every direction with a zero component (what Flip()/Scale(-1) of an
+	// axis-parallel direction produce): 1/-0 = -Inf where 1/+0 = +Inf, a different path through every
+	// slab test although the ray is the same
+	nz := math.Copysign(0, -1)
+	for _, d := range append([][3]float64{}, rayDirs...) {
+		t, has := d, false
+		for a := 0; a < 3; a++ {
+			if d[a] == 0 {
+				t[a], has = nz, true
+			}
+		}
+		if has {
+			rayDirs = append(rayDirs, t)
+		}
+	}
 }
 
 // ---- building the real index and the real elements ----
@@ -642,7 +657,7 @@ func run(c *core.Ctx) {
 	c.Bound("depths", "0,1,2,auto")
 	c.Bound("query_points", len(qPoints))
 	c.Bound("radii", radii)
-	c.Bound("rays", fmt.Sprintf("%d origins {-1,0.5,2}^3 x %d lattice directions x ranges [0,inf) and [0.5,2]", len(rayOrig), len(rayDirs)))
+	c.Bound("rays", fmt.Sprintf("%d origins {-1,0.5,2}^3 x %d lattice directions (zero components as +0 and as -0) x ranges [0,inf) and [0.5,2]", len(rayOrig), len(rayDirs)))
 	k.runLadder()
 	if c.Expired() || c.Args["only"] == "ladder" {
 		return
